@@ -9,7 +9,8 @@ import Stgutg.Crypto.Prims
       step = <via>,<epd>,<sht>,<ctx>,<new>,<plain>    via: e = EncodeNasPduWithSecurity, n = NASEncode,
                                                        z / u / x = NASEncode without message / without UE / with a
                                                        message the plain codec refuses (`nasEncodeRefused`),
-                                                       b = EncodeNasPduWithSecurity on octets the plain decoder refuses
+                                                       b = EncodeNasPduWithSecurity on octets the plain decoder refuses,
+                                                       r = NASEncode on the SAME message object as the step before
       → ok <octets|err|panic>* ul=<stored word> dl=<stored word>
       spec column: the octets a conformant UE sends (TS 24.501 / TS 33.501), after checking that the
       conformant receiver recovers the plain message from them; final NAS COUNTs.
@@ -65,7 +66,9 @@ def undecodable (plain : Bytes) : Bool :=
 
 def parseUlStep (s : String) : Option UlStep :=
   match s.splitOn "," with
-  | [via, epd, sht, ctx, new, plain] =>
+  | [via0, epd, sht, ctx, new, plain] =>
+    -- `r`: the caller hands NASEncode the message object of the previous call again; a message is a value here
+    let via := if via0 = "r" then "n" else via0
     match natArg epd, natArg sht, boolArg ctx, boolArg new, hexArg plain with
     | some epd, some sht, some ctx, some new, some plain =>
       if epd < 256 && sht < 256 && (via = "e" || via = "n" || via = "z" || via = "u" || via = "x" || (via = "b" && undecodable plain)) &&
